@@ -106,8 +106,20 @@ class Check:
         work = copy.deepcopy(spec)
         if cmd_kind != 'setup':
             hist.append({'op': 'setup', 'D': P.draw_assignments(frng, work, frng.randint(0, 3))})
-            for _ in range(frng.choice([0, 0, 1, 2])):
-                k = frng.choice(['configure', 'reconfigure', 'edit', 'configure-U'])
+            if (fam // 8) % 2 == 1 if tier == 'quick' else frng.random() < 0.4:
+                # a default is edited after the first setup: the directory now holds a value (the old default)
+                # that only coredata.dat remembers - what a lost or truncated coredata.dat cannot be re-derived from
+                cands = [o for o in work['top'] if o['type'] in ('string', 'boolean', 'integer', 'combo') and not o.get('yield')
+                         and o['name'] not in hist[0]['D']]
+                for o in cands[:1]:
+                    nv = next((v for v in (P.draw_value(frng, o, True) for _ in range(8)) if v != o['value']), None)
+                    if nv is not None:
+                        ed = {'where': 'top', 'kind': 'default', 'name': o['name'], 'value': nv}
+                        P.apply_edit(work, ed)
+                        hist.append({'op': 'edit', 'edit': ed})
+                        hist.append({'op': 'reconfigure', 'D': {}})
+            for _ in range(frng.choice([0, 1, 1, 2])):
+                k = frng.choice(['configure', 'reconfigure', 'edit', 'edit', 'configure-U'])
                 if k == 'configure':
                     d = P.draw_assignments(frng, work, frng.randint(1, 2))
                     if d:
@@ -119,7 +131,16 @@ class Check:
                 elif k == 'reconfigure':
                     hist.append({'op': 'reconfigure', 'D': P.draw_assignments(frng, work, frng.randint(0, 2))})
                 elif k == 'edit':
-                    ed = P.draw_edit(frng, work)
+                    # prefer an edit of a default: afterwards the directory holds a value (the old default) that
+                    # nothing but coredata.dat remembers - the state a lost coredata.dat cannot be re-derived from
+                    ed = None
+                    for _ in range(6):
+                        cand = P.draw_edit(frng, work)
+                        if cand is not None and cand['kind'] == 'default':
+                            ed = cand
+                            break
+                        if cand is not None and cand['kind'] == 'add' and ed is None:
+                            ed = cand
                     if ed is not None and ed['kind'] in ('add', 'default'):
                         P.apply_edit(work, ed)
                         hist.append({'op': 'edit', 'edit': ed})
